@@ -1,41 +1,333 @@
 package main
 
+// C07 harness: seeded chains on the real code (builder chain + independent importing chain), the conservation oracle on
+// the real dumps after every block, block-by-block correspondence with the Lean ledger model, known-finding matchers
+// and probes, shrinking, replay.
+
 import (
 	"fmt"
-	"math/big"
-	"os"
+	"strings"
 
 	"verifharness/cmd/c07/chainkit"
 	"verifharness/internal/quiet"
 	"verifharness/internal/vh"
 )
 
-func spikeScenario() []string {
-	ls := []string{"W users=8 pool=100000000000000000000000", "GV 0 1 2000000000000000000000 1", "GV 1 2 1000000000000000000000 1", "GV 2 3 500000000000000000000 1"}
-	for i := 0; i < 150; i++ {
+func spikeScenario(blocks int) []string {
+	ls := []string{"W users=8 pool=100000000000000000000000 ver=5", "GV 0 1 2000000000000000000000 1", "GV 1 2 1000000000000000000000 1", "GV 2 3 500000000000000000000 1"}
+	for i := 0; i < blocks; i++ {
 		ls = append(ls, fmt.Sprintf("B %d", i%3), fmt.Sprintf("T %d u%d 1000000000000000000", i%8, (i+1)%8))
 	}
 	return ls
 }
 
-func run(c *vh.Ctx) error {
+func refundScenario() []string {
+	return []string{"W users=8 pool=100000000000000000000000 ver=5", "GV 0 1 2000000000000000000000 1", "GV 1 3 500000000000000000000 1",
+		"B 0", "K 1 0 00000000000000000000000000000000000000000000000000000000000000ff 0",
+		"B 1", "K 2 0 0000000000000000000000000000000000000000000000000000000000000000 0 p=7", "B 0"}
+}
+
+var initDone bool
+
+func setup() {
 	quiet.Silence()
-	chainkit.Init()
-	rr, err := execScenario(spikeScenario())
+	if !initDone {
+		chainkit.Init()
+		initDone = true
+	}
+}
+
+// evalScenario executes the text and evaluates it. drvPath "" = oracle only.
+func evalScenario(lines []string, drvPath string) (*runResult, []finding, error) {
+	rr, err := execScenario(lines)
 	if err != nil {
-		return err
+		return nil, nil, err
 	}
-	prev := rr.genesis.parts().total()
-	fmt.Fprintln(os.Stderr, "genesis", rr.genesis.parts())
-	for _, b := range rr.blocks {
-		t := b.parts.total()
-		if t.Cmp(prev) != 0 {
-			fmt.Fprintln(os.Stderr, "block", b.num, "delta", new(big.Int).Sub(t, prev), b.parts)
+	var drv *vh.Driver
+	if drvPath != "" {
+		drv, err = vh.StartDriver(drvPath)
+		if err != nil {
+			return nil, nil, err
 		}
-		prev = t
+		defer drv.Close()
 	}
-	fmt.Fprintln(os.Stderr, "stop:", rr.stopErr, len(rr.blocks))
+	return rr, checkRun(rr, drv), nil
+}
+
+func sameClass(fs []finding, f finding) bool {
+	for _, g := range fs {
+		if g.kind == f.kind && g.class == f.class && g.matcher == f.matcher {
+			return true
+		}
+	}
+	return false
+}
+
+// shrinkScenario: cut after the failing block, then ddmin over op/block lines (bounded number of executions).
+func shrinkScenario(lines []string, f finding, drvPath string) []string {
+	nhead := 0
+	for nhead < len(lines) && (strings.HasPrefix(lines[nhead], "W ") || strings.HasPrefix(lines[nhead], "GV ")) {
+		nhead++
+	}
+	head, body := lines[:nhead], lines[nhead:]
+	// cut after the failing block (everything later cannot matter)
+	if f.block > 0 {
+		nb := uint64(0)
+		for i, l := range body {
+			if strings.HasPrefix(l, "B ") {
+				nb++
+				if nb > f.block {
+					body = body[:i]
+					break
+				}
+			}
+		}
+	}
+	budget := 80
+	fails := func(cand []string) bool {
+		if budget <= 0 {
+			return false
+		}
+		budget--
+		_, fs, err := evalScenario(append(append([]string{}, head...), cand...), drvPath)
+		return err == nil && sameClass(fs, f)
+	}
+	// only tx lines are candidates for removal (removing B lines would shift block numbers and period ends)
+	var txIdx []string
+	for i, l := range body {
+		if !strings.HasPrefix(l, "B ") {
+			txIdx = append(txIdx, fmt.Sprint(i))
+		}
+	}
+	keep := vh.Shrink(txIdx, func(sel []string) bool {
+		in := map[string]bool{}
+		for _, s := range sel {
+			in[s] = true
+		}
+		var cand []string
+		for i, l := range body {
+			if strings.HasPrefix(l, "B ") || in[fmt.Sprint(i)] {
+				cand = append(cand, l)
+			}
+		}
+		return fails(cand)
+	})
+	in := map[string]bool{}
+	for _, s := range keep {
+		in[s] = true
+	}
+	var min []string
+	for i, l := range body {
+		if strings.HasPrefix(l, "B ") || in[fmt.Sprint(i)] {
+			min = append(min, l)
+		}
+	}
+	// an empty selection is never tried by vh.Shrink; try it
+	if len(keep) == 1 {
+		var onlyB []string
+		for _, l := range body {
+			if strings.HasPrefix(l, "B ") {
+				onlyB = append(onlyB, l)
+			}
+		}
+		if fails(onlyB) {
+			min = onlyB
+		}
+	}
+	return append(append([]string{}, head...), min...)
+}
+
+func report(c *vh.Ctx, name string, lines []string, fs []finding, seenKnown map[string]bool, shrink bool) {
+	res := c.Res
+	done := map[string]bool{}
+	for _, f := range fs {
+		key := f.kind + "/" + f.class + "/" + f.matcher
+		if done[key] {
+			continue
+		}
+		done[key] = true
+		if f.matcher != "" {
+			// a known finding: one replay per matcher per run is enough
+			if seenKnown[f.matcher+"/"+f.class] {
+				continue
+			}
+			seenKnown[f.matcher+"/"+f.class] = true
+		}
+		min := lines
+		if shrink && len(res.Failures) < 6 {
+			min = shrinkScenario(lines, f, c.Driver)
+		}
+		rp := vh.WriteReplay(c.ReplayDir, "C07", fmt.Sprintf("%s-%s-%s", name, f.class, orNone(f.matcher)), c.Seed,
+			[]string{f.kind + ": " + f.class, "matcher: " + orNone(f.matcher), strings.ReplaceAll(f.what, "\n", " ")}, min)
+		res.Fail(f.kind, f.matcher, f.what, rp)
+	}
+}
+
+func orNone(s string) string {
+	if s == "" {
+		return "none"
+	}
+	return s
+}
+
+func run(c *vh.Ctx) error {
+	setup()
+	res := c.Res
+	res.Rule = "case = one generated chain (world + block/tx operation text) executed on the real code; non-trivial when it crosses >= 1 staking period end, >= 1 staking transaction takes effect and >= 1 offered transaction fails or is refused; distinct by scenario text"
+	seenKnown := map[string]bool{}
+	// ---- corpus first -------------------------------------------------------------------------
+	for _, f := range vh.CorpusFiles("C07") {
+		body, _, e := vh.ReadReplay(f)
+		if e != nil {
+			continue
+		}
+		res.Dist("corpus")
+		_, fs, err := evalScenario(body, c.Driver)
+		if err != nil {
+			res.Fail("corpus", "", "corpus file "+f+" cannot be executed: "+err.Error(), f)
+			continue
+		}
+		for _, fd := range fs {
+			if fd.matcher == "" {
+				res.Fail("corpus", "", "corpus witness fails: "+f+": "+fd.what, f)
+				break
+			}
+		}
+	}
+	// ---- known-finding probes -------------------------------------------------------------------
+	probe := func(id, matcher string, lines []string) {
+		_, fs, err := evalScenario(lines, c.Driver)
+		rep, what := false, "not reproduced"
+		if err != nil {
+			what = "probe could not run: " + err.Error()
+		}
+		for _, f := range fs {
+			if f.matcher == matcher && f.class == "conservation" {
+				rep, what = true, f.what
+			}
+		}
+		for _, f := range fs {
+			if f.matcher == "" {
+				res.Fail(f.kind, "", "probe "+id+": "+f.what, vh.WriteReplay(c.ReplayDir, "C07", "probe-"+id+"-"+f.class, c.Seed, []string{f.what}, lines))
+			}
+		}
+		if len(what) > 300 {
+			what = what[:300]
+		}
+		res.Probes = append(res.Probes, vh.Probe{ID: id, Reproduced: rep, What: what})
+	}
+	probe("F-C07a", mForced, spikeScenario(144))
+	probe("F-C07c", mRefund, refundScenario())
+	// ---- generated chains -----------------------------------------------------------------------
+	nChains := c.N(45, 1500)
+	if c.Search {
+		nChains *= 2
+	}
+	var drv *vh.Driver
+	if c.Driver != "" {
+		var err error
+		drv, err = vh.StartDriver(c.Driver)
+		if err != nil {
+			return err
+		}
+		defer drv.Close()
+	}
+	for ci := 0; ci < nChains; ci++ {
+		r := c.R.Fork()
+		header, prof := genWorld(r)
+		prof.blocks = r.Range(40, c.N(190, 420))
+		s, _, err := newSession(header)
+		if err != nil {
+			return err
+		}
+		lines := append([]string{}, header...)
+		for bi := 0; bi < prof.blocks && s.rr.stopErr == ""; bi++ {
+			st, _, err := s.w.kit.A.NextState()
+			if err != nil {
+				s.close()
+				return err
+			}
+			bl := prof.genBlock(r, s.w, st, res)
+			lines = append(lines, bl...)
+			if err := s.runBlock(bl); err != nil {
+				s.close()
+				return fmt.Errorf("chain %d: %v", ci, err)
+			}
+		}
+		rr := s.rr
+		s.close()
+		fs := checkRun(rr, drv)
+		// bookkeeping
+		periodEnds, effective, failed, skipped, included := 0, 0, 0, 0, 0
+		for _, b := range rr.blocks {
+			if b.periodEnd {
+				periodEnds++
+			}
+			for _, r := range b.effective {
+				effective += len(r.Txs)
+			}
+			for _, t := range b.txs {
+				res.Dist("op-" + t.o.kind)
+				switch {
+				case !t.included:
+					skipped++
+					res.Dist("tx-refused")
+				case t.failed:
+					failed++
+					res.Dist("tx-failed-" + t.o.kind)
+				default:
+					included++
+					res.Dist("tx-ok-" + t.o.kind)
+				}
+			}
+			if drv != nil && b.led != nil {
+				res.TracesVsImpl++
+			}
+		}
+		res.DistN("blocks", len(rr.blocks))
+		res.DistN("period-ends", periodEnds)
+		res.DistN("staking-tx-took-effect", effective)
+		if rr.stopErr != "" {
+			res.Dist("chain-stopped-early")
+		}
+		if rr.unbuildable {
+			res.Dist("chain-stopped-builder-state-error")
+			if _, ok := res.Extra["builder_state_error_replay"]; !ok {
+				res.Extra["builder_state_error_replay"] = vh.WriteReplay(c.ReplayDir, "C07", "note-builder-state-error", c.Seed,
+					[]string{"NOT a C07 failure. " + rr.stopErr, "the builder's block carries a staking root that depends on Go map iteration order (updateStakingTrie aborts on a negative FinalValue); for C06"}, lines)
+				res.Extra["builder_state_error"] = rr.stopErr
+			}
+		}
+		res.DistN("out-of-domain-no-online-validator-at-period-end", rr.outOfDomain)
+		res.Count(strings.Join(lines, "\n"), periodEnds >= 1 && effective >= 1 && failed+skipped >= 1)
+		if ci < 2 {
+			n := len(lines)
+			if n > 40 {
+				n = 40
+			}
+			res.Sample(map[string]interface{}{"scenario_head": lines[:n], "blocks": len(rr.blocks), "period_ends": periodEnds, "took_effect": effective, "failed": failed, "refused": skipped})
+		}
+		report(c, fmt.Sprintf("chain%d", ci), lines, fs, seenKnown, true)
+	}
+	res.Partial = append(res.Partial,
+		"EVM contract execution is an opaque, observed step in the model (status, gas, refund, burn are taken from the real run); its internal conservation is C16's",
+		"pre-V5 branches (rewardsToPool/teDelegationSub/refund gates) and evidence-based (double-sign) slashing are not in the Lean model; the oracle on real dumps still covers whatever the generator reaches",
+		"gas metering itself (intrinsic gas of the payload bytes) is an input of the model, not computed by it")
 	return nil
 }
 
-func replay(c *vh.Ctx, body, comments []string) (bool, string) { return false, "" }
+func replay(c *vh.Ctx, body, comments []string) (bool, string) {
+	setup()
+	_, fs, err := evalScenario(body, c.Driver)
+	if err != nil {
+		return false, "scenario cannot be executed: " + err.Error()
+	}
+	if len(fs) == 0 {
+		return false, "no failure: total is constant at every block boundary and the model agrees"
+	}
+	var msgs []string
+	for _, f := range fs {
+		msgs = append(msgs, fmt.Sprintf("[%s/%s matcher=%s] %s", f.kind, f.class, orNone(f.matcher), f.what))
+	}
+	return true, strings.Join(msgs, "\n")
+}
